@@ -44,6 +44,13 @@ def setup_impl_path() -> None:
     import warnings
 
     warnings.filterwarnings('ignore')
+    os.environ.setdefault('OMP_NUM_THREADS', '1')
+    try:
+        import torch
+
+        torch.set_num_threads(1)      # many rank threads: avoid intra-op thread-pool contention
+    except Exception:  # noqa: BLE001
+        pass
 
 
 # --------------------------------------------------------------------------
